@@ -52,6 +52,12 @@ func (c *CSV) UnmarshalFlag(v string) error {
 	return nil
 }
 
+// Grade is a named integer type that can print itself (fmt.Stringer) but has no flag marshalling of its own:
+// it is read and written as the integer it is.
+type Grade int
+
+func (g Grade) String() string { return [...]string{"low", "mid", "high"}[((int(g)%3)+3)%3] }
+
 // Level is a named string type (map keys / values of named types).
 type Level string
 
@@ -208,6 +214,8 @@ var (
 	TCSV      = &Type{"CSV", reflect.TypeOf(CSV{})}
 	TMapLS    = &Type{"map[Level]string", reflect.TypeOf(map[Level]string{})}
 	TMapSL    = &Type{"map[string]Level", reflect.TypeOf(map[string]Level{})}
+	TGrade    = &Type{"Grade", reflect.TypeOf(Grade(0))}
+	TGrades   = &Type{"[]Grade", reflect.TypeOf([]Grade{})}
 	TPInts    = &Type{"[]*int", reflect.TypeOf([]*int{})}
 	TPBools   = &Type{"[]*bool", reflect.TypeOf([]*bool{})}
 	TPPBool   = &Type{"**bool", reflect.TypeOf((**bool)(nil))}
